@@ -14,7 +14,9 @@ import (
 )
 
 func genJSONValue(rng *rand.Rand, depth int) any {
-	strs := []string{"", "a", "héllo", "日本", "<b>&amp;</b>", "quote\"back\\slash", "line\nbreak\ttab", " ", "emoji😀", "nul\x00byte", "/slash"}
+	strs := []string{"", "a", "héllo", "日本", "<b>&amp;</b>", "quote\"back\\slash", "line\nbreak\ttab", " ", "emoji😀", "nul\x00byte", "/slash",
+		// characters that mean something to a formatter, a template or a JSON-in-HTML encoder
+		"50% off", "100%", "%d %s %v", "%%", "%!(EXTRA)", "{}", "[1,2]", "\u2028\u2029", "\\n", "${x}", "</script>", "\ufeffbom"}
 	switch k := rng.Intn(10); {
 	case depth <= 0 || k < 4:
 		switch rng.Intn(6) {
